@@ -113,6 +113,11 @@ func (ls *LinesearchMethod) Iterate(loc *Location) (Operation, error) {
 			// a non-finite function value.
 			return ls.error(ErrLinesearcherFailure)
 		}
+		if step == ls.lastStep && op&^ls.eval == 0 {
+			// The Linesearcher asks again for values that are already known
+			// at the current step, so it cannot make progress.
+			return ls.error(ErrNoProgress)
+		}
 		if step != ls.lastStep {
 			// We are moving to a new location, and not, say, evaluating extra
 			// information at the current location.
